@@ -26,7 +26,7 @@ WHY_NOT = {
     "C19-m20": "wrong only in the NEW classmethod from_dict() it adds",
     "C04-m22": "only under warnings-as-errors (-W error): the warning it adds becomes an exception; with the default filters every result is identical",
     "C06-m22": "only for an unknown-model frame arriving at the OTHER protocol family's well-known port of a bridge on the default ports; the running-bridge stream of C06 uses private ports",
-    "C15-m21": "only when the database FILE at one path is rewritten between two managers; the check loads every IR set from a file of its own",
+    "C03-m24": "needs a login reply that arrives more than 10 s of real time late (as C03-m16: no virtual loop clock in the harness)",
     "C18-m22": "an operation asked of a client that is NOT connected (it now connects by itself); the model's domain asks operations of connected clients only",
     "C01-m21": "needs a second api object's login to fail exactly between another object's IR command and its separate swing frame",
 }
